@@ -540,7 +540,7 @@ def cpython_import_check(ctx: Ctx, recs: List[Dict[str, Any]], first_h: int) -> 
 # ------------------------------------------------------------------------------------------------- check
 def tlc_cases(ctx: Ctx, source: str, maxn: int, docstates: List[str], out: Dict[str, Any], **kw: Any) -> None:
     try:
-        r = ctx.tlc("MRO", cfg_text(source, maxn, docstates, invariants=(source != "graph")), workers=kw.pop("workers", 6),
+        r = ctx.tlc("MRO", cfg_text(source, maxn, docstates, invariants=True), workers=kw.pop("workers", 6),
                     check=True, timeout=1500, cfg_name=f"MRO_{source}.cfg", **kw)
         out[source] = r
     except BaseException as e:            # re-raised in the main thread
